@@ -601,6 +601,14 @@ func c29Scenarios(thorough bool) []vScn {
 			c29Req{name: "l1", thread: 1, proc: wire.LOOKUP, args: dirop("/d", "y"), obj: "/d/y", dir: "/d", child: "y"},
 			c29Req{name: "l2", thread: 2, proc: wire.LOOKUP, args: dirop("/d", "y"), obj: "/d/y", dir: "/d", child: "y"},
 			c29Req{name: "p3", thread: 3, proc: wire.READDIRPLUS, args: readdirplus("/d"), dir: "/d"})...)
+		specs = append(specs, mkspec("same-name-create-create-lookup",
+			c29Req{name: "c1", thread: 1, proc: wire.CREATE, args: create("/d", "a"), dir: "/d", child: "a"},
+			c29Req{name: "c2", thread: 2, proc: wire.CREATE, args: create("/d", "a"), dir: "/d", child: "a"},
+			c29Req{name: "l3", thread: 3, proc: wire.LOOKUP, args: dirop("/d", "a"), dir: "/d", child: "a"})...)
+		specs = append(specs, mkspec("same-name-mkdir-mkdir-remove",
+			c29Req{name: "m1", thread: 1, proc: wire.MKDIR, args: mkdir("/d", "m"), dir: "/d", child: "m"},
+			c29Req{name: "m2", thread: 2, proc: wire.MKDIR, args: mkdir("/d", "m"), dir: "/d", child: "m"},
+			c29Req{name: "u3", thread: 3, proc: wire.REMOVE, args: dirop("/d", "x"), dir: "/d", child: "x"})...)
 		specs = append(specs, mkspec("write-truncate-write",
 			c29Req{name: "w1", thread: 1, proc: wire.WRITE, args: write("/f", 2, "CD"), obj: "/f"},
 			c29Req{name: "t2", thread: 2, proc: wire.SETATTR, args: truncate("/f", 1), obj: "/f"},
